@@ -10,6 +10,7 @@ import (
 	"sort"
 	"strings"
 	"sync"
+	"sync/atomic"
 	"testing"
 
 	lua "github.com/yuin/gopher-lua"
@@ -109,6 +110,17 @@ var chkShared = vf.Register("shared_proto", func(k *vf.C, c *SharedCase) error {
 	errs := make([]string, c.States)
 	stop := make(chan struct{})
 	var nwg sync.WaitGroup
+	// the background scripts take a few thousand instructions each; one that is still running after five million has been
+	// derailed (found by count, not by clock)
+	var noiseErr atomic.Value
+	noise := func(src string, o lua.Options) {
+		g := e1.RunGopher(src, &e1.GOpts{Budget: 5_000_000, Options: o})
+		if g.Overrun != "" {
+			noiseErr.Store("a background state running a short terminating script was still running after 5000000 instructions: " + clip(src, 80))
+		} else if g.Panic != "" {
+			noiseErr.Store("a background state let a Go panic escape: " + g.Panic)
+		}
+	}
 	// noise: states created and closed, other sources compiled, patterns matched, deep recursion on auto-growing stacks
 	for n := 0; n < c.Noise; n++ {
 		nwg.Add(1)
@@ -122,21 +134,15 @@ var chkShared = vf.Register("shared_proto", func(k *vf.C, c *SharedCase) error {
 				}
 				switch (n + i) % 4 {
 				case 0:
-					L := lua.NewState()
-					L.DoString(`local t = {} for i = 1, 20 do t[i] = tostring(i) end return table.concat(t, ",")`)
-					L.Close()
+					noise(`local t = {} for i = 1, 20 do t[i] = tostring(i) end return table.concat(t, ",")`, lua.Options{})
 				case 1:
 					if ch, err := parse.Parse(strings.NewReader(c.NoiseSrc), "<noise>"); err == nil {
 						lua.Compile(ch, "<noise>")
 					}
 				case 2:
-					L := lua.NewState(lua.Options{SkipOpenLibs: false})
-					L.DoString(`local s = string.rep("ab1 ", 30) local n = 0 for w in s:gmatch("%a+%d") do n = n + #w end return (s:gsub("(%a)(%d)", "%2%1")), s:find("b1 a", 1, true), n`)
-					L.Close()
+					noise(`local s = string.rep("ab1 ", 30) local n = 0 for w in s:gmatch("%a+%d") do n = n + #w end return (s:gsub("(%a)(%d)", "%2%1")), s:find("b1 a", 1, true), n`, lua.Options{})
 				default:
-					L := lua.NewState(lua.Options{MinimizeStackMemory: true, CallStackSize: 120})
-					L.DoString(`local function r(n) if n == 0 then return 0 end return 1 + r(n - 1) end return r(100), pcall(r, 500)`)
-					L.Close()
+					noise(`local function r(n) if n == 0 then return 0 end return 1 + r(n - 1) end return r(100), pcall(r, 500)`, lua.Options{MinimizeStackMemory: true, CallStackSize: 120})
 				}
 				runtime.Gosched()
 			}
@@ -173,6 +179,9 @@ var chkShared = vf.Register("shared_proto", func(k *vf.C, c *SharedCase) error {
 		if e != "" {
 			return fmt.Errorf("%s", e)
 		}
+	}
+	if e, _ := noiseErr.Load().(string); e != "" {
+		return fmt.Errorf("%s", e)
 	}
 	if after := snapshot(proto); after != before {
 		return fmt.Errorf("executing the shared prototype modified it: first difference %s", firstDiff(before, after))
